@@ -364,7 +364,14 @@ def check(ctx):
     for fn in prog.functions():
         if any(f in fit_fns for f in prog.reachable_from(fn)):
             reach_fit.add(fn)
-    for fn in reach_fit:
+    # helpers that the fitting routines call (the roll-back may be factored out of the routine that refits)
+    scope_fit = set(reach_fit)
+    for fn in list(reach_fit):
+        if any(fn.module is f_.module for f_ in fit_fns):
+            for g_ in prog.reachable_from(fn):
+                if g_.module is fn.module:
+                    scope_fit.add(g_)
+    for fn in scope_fit:
         for node in ast.walk(fn.node):
             if isinstance(node, ast.Call) and isinstance(node.func, ast.Attribute) and node.func.attr == "update" and is_gp_expr(prog, fn, node.func.value) and prog.function_of(node) is fn:
                 tr = None
